@@ -271,10 +271,11 @@ def rp(spec, st, sc):
         return st.read(1) != b"\x00"
     if k == "enum":
         v = rp(spec[1], st, sc)
+        found = v
         for label, val in spec[2]:
             if val == v:
-                return label
-        return v
+                found = label       # (aliases: the last label declared for a value is the one reported)
+        return found
     if k == "flagsenum":
         v = rp(spec[1], st, sc)
         return {label: (v & mask) == mask for label, mask in spec[2]}
@@ -1053,7 +1054,7 @@ def rb(spec, v, sc):
     if k == "rebuild":
         return rb(spec[1], evaluate(spec[2], sc), sc)
     if k == "default":
-        return rb(spec[1], spec[2] if v is None else v, sc)
+        return rb(spec[1], evaluate(spec[2], sc) if v is None else v, sc)
     if k in ("hex", "hexdump"):
         return rb(spec[1], v, sc)[0], v
     if k in ("docs", "lazybound"):
